@@ -60,7 +60,7 @@ LOCK_IDS = {"_mid_generate_mutex": 0, "_out_message_mutex": 1, "_in_callback_mut
 ROOT = os.path.dirname(os.path.dirname(os.path.abspath(__file__)))
 CORPUS = os.path.join(ROOT, "corpus", "C07")
 
-HOOKED = frozenset({"_send_publish", "_mid_generate", "_packet_queue"})
+HOOKED = frozenset({"_send_publish", "_mid_generate", "_packet_queue", "loop_write"})
 LOCK_ATTRS = ["_in_callback_mutex", "_callback_mutex", "_msgtime_mutex", "_out_message_mutex", "_in_message_mutex",
               "_reconnect_delay_mutex", "_mid_generate_mutex"]
 # lockset check: every access of the message store made while another thread is alive
@@ -378,6 +378,8 @@ def run_once(cfg, strategy, visible=None, audit=False, keep_events=True):
         def hook_line(code, names):
             if code.co_name == "_send_publish" and "_sock" in names:
                 sch.event("sock-rd", none=c._sock is None)
+            elif code.co_name == "loop_write" and "_connect_queued" in names:
+                sch.event("gate", open=getattr(c, "_connect_queued", True))
 
         def hook_attr(code, name, is_store):
             co = code.co_name
@@ -573,7 +575,7 @@ def model_case(run):
             elif kind == "select-ret":
                 if not d["timeout"]:
                     toks.append(0)
-            elif kind in ("pipe-recv", "popleft", "send"):
+            elif kind in ("pipe-recv", "popleft", "send", "gate"):
                 toks.append(0)
     n = len(cfg["msgs"])
     args = [cfg.get("start_mid", 0), 1, (run.start_pipe or [0])[0], n] + [len(m) for m in cfg["msgs"]] + toks
